@@ -11,3 +11,4 @@ reg("C20", "exploration", [
     P("fpcfg", "all", package="fpcfg", features="cfg_std", name="cfg-std"),
 ])
 reg("C12", "exploration", [P("tex", "all")])
+reg("C15", "exploration", [P("solids", "all")])
